@@ -288,6 +288,13 @@ mod zalsa_local;
 #[cfg(not(feature = "inventory"))]
 mod nonce;
 
+/// Verification hooks for the external model-checking harness. Not part of the public API.
+#[cfg(feature = "salsa_verif")]
+#[doc(hidden)]
+pub mod verif {
+    pub use crate::zalsa_local::verif::*;
+}
+
 #[cfg(feature = "macros")]
 pub use salsa_macros::{SalsaValue, Supertype, accumulator, db, input, interned, tracked};
 
